@@ -10,6 +10,7 @@ import (
 	"time"
 
 	"kv/core"
+	"kv/kj"
 )
 
 type cmdScenario struct {
@@ -254,6 +255,15 @@ func C14(c *core.Ctx) {
 	for k := range muts {
 		cp := cmdPool[mrng.Intn(len(cmdPool))]
 		muts[k] = mut{text: mutate(mrng, c14Base+"\n@accrue monthly 2020-01-01 2020-06-30 Assets:Portfolio\n2020-02-15 \"insurance\"\nAssets:Bank Expenses:Food 120 CHF\n"), argv: cp.argv, rep: cp.rep}
+		if k%2 == 1 {
+			// random well-formed journals (valued, accruals, unusual but legal names: non-ASCII, lower-case and
+			// digit-initial segments), unchanged or mutated
+			j := kj.Random(mrng, kj.GenOpts{Valued: true, Accruals: k%4 == 1, MaxDirs: 12}, 18262+mrng.Intn(40))
+			muts[k].text = j.Render()
+			if k%4 == 3 {
+				muts[k].text = mutate(mrng, muts[k].text)
+			}
+		}
 	}
 	mcases := make([]map[string]any, nm)
 	core.Parallel(nm, func(k int) {
